@@ -548,11 +548,63 @@ def valid_chain(ops, L, ucw, infinite):
     return True
 
 
-def check_case(case, req, real, lo):
-    """lo: output of the Lean driver"""
+def oracle_case(case, req, real):
+    """the independent oracle (no model): well-formed graphs build; the MPO is the path sum of the graph; legal
+    chains of MPO methods do not raise and do not change the operator on the corresponding window"""
     fails, facts = [], {}
-    if lo is None or 'error' in lo and 'graph' not in lo:
-        return [('correspondence', 'ext.driver-error', str(lo)[:400])], facts
+    L, infinite, window = real['L'], real['infinite'], real['window']
+    graph, H = real['graph'], real['H']
+    malformed_graph = case['sub'] == 'graph' and case.get('malformed')
+    if H is None:
+        rb = real['base']
+        if not malformed_graph and not (real['wq'] is not None and infinite):
+            fails.append(('property', 'ext.build_MPO.raises.' + rb['error'], str(rb)[:600]))
+        return fails, facts, None
+    D = float(np.prod(real['dims'])) ** window
+    n_sites = L * window
+    base_dense = None
+    if D <= MAX_D:
+        base_dense = mpo_dense(H, 0, n_sites)
+        gd = graph_dense(graph, window)
+        if gd is None and base_dense is not None:
+            gd = np.zeros_like(base_dense)      # no path fits into the window
+        if base_dense is not None and gd is not None:
+            if oc.maxdiff(base_dense, gd) > TOL * max(1.0, np.max(np.abs(gd))):
+                fails.append(('property', 'ext.oracle.mpo_vs_graph', f'maxdiff {oc.maxdiff(base_dense, gd)}'))
+            else:
+                facts['ext.oracle.mpo_vs_graph'] = True
+    ucw0 = req['ucw']
+    for ops, (H2, err) in zip(real['chains'], real['chain_out']):
+        sig = chain_sig(ops)
+        legal = valid_chain(ops, L, ucw0, infinite)
+        if err is not None:
+            if legal == 'grouped-segment' and err['error'] == 'ZeroDivisionError':
+                fails.append(('property', 'dense.grouped_segment.extract_segment_after_group_sites',
+                              f'ops {ops}: {err}'))
+            elif legal is True:
+                fails.append(('property', f'ext.chain.raises.{err["error"]}.{ops[err["step"]][0]}', f'ops {ops}: {err}'))
+            continue
+        try:
+            exp, got = chain_expectation(H, H2, ops, L, window, real['dims'])
+        except Exception:  # noqa: BLE001
+            fails.append(('correspondence', 'ext.harness.oracle-exception', traceback.format_exc()[-800:]))
+            continue
+        if exp is None or got is None:
+            continue
+        if exp.shape != got.shape or oc.maxdiff(exp, got) > TOL * max(1.0, np.max(np.abs(exp), initial=0.0)):
+            fails.append(('property', f'ext.oracle.chain.{sig}', f'ops {ops} maxdiff {oc.maxdiff(exp, got)}'))
+        else:
+            facts['ext.oracle.chain'] = True
+    return fails, facts, base_dense
+
+
+def check_case(case, req, real, lo, use_model=True):
+    """lo: output of the Lean driver (None with use_model=False: oracle only)"""
+    fails, facts, base_dense = oracle_case(case, req, real)
+    if not use_model:
+        return fails, facts
+    if lo is None or ('error' in lo and 'graph' not in lo):
+        return fails + [('correspondence', 'ext.driver-error', str(lo)[:400])], facts
     L, infinite, window = real['L'], real['infinite'], real['window']
     graph = real['graph']
     # graph replay
@@ -586,71 +638,36 @@ def check_case(case, req, real, lo):
             fails.append(('correspondence', 'ext.build_MPO.error', f'impl {str(rb)[:300]} model {str(mb)[:200]}'))
         else:
             facts['ext.build_MPO.raises.' + rb['error']] = True
-            if not (case['sub'] == 'graph' and case.get('malformed')) and not (real['wq'] is not None and infinite):
-                # a well-formed input must build
-                fails.append(('property', 'ext.build_MPO.raises.' + rb['error'], str(rb)[:600]))
         return fails, facts
     if not cmp_mpo('build_MPO', H, mb['mpo'], fails):
         return fails, facts
     facts['ext.build_MPO'] = True
-    D = float(np.prod(real['dims'])) ** window
     n_sites = L * window
-    base_dense = None
-    if D <= MAX_D:
-        # oracle 1: the MPO is the path sum of the graph
-        base_dense = mpo_dense(H, 0, n_sites)
-        gd = graph_dense(graph, window)
-        if gd is None and base_dense is not None:
-            gd = np.zeros_like(base_dense)      # no path fits into the window
-        if base_dense is not None and gd is not None:
-            if oc.maxdiff(base_dense, gd) > TOL * max(1.0, np.max(np.abs(gd))):
-                fails.append(('property', 'ext.oracle.mpo_vs_graph', f'maxdiff {oc.maxdiff(base_dense, gd)}'))
-            else:
-                facts['ext.oracle.mpo_vs_graph'] = True
+    if base_dense is not None and lo.get('denote') is not None:
         # the formal sum of the model evaluated with the site matrices
-        if lo.get('denote') is not None and base_dense is not None:
-            mbody = oc.ManyBody([graph.sites[i % L] for i in range(n_sites)])
-            from harness.c10_check import eval_canon
-            dm = eval_canon(mbody, lo['denote'], n_sites)
-            if oc.maxdiff(dm, base_dense) > TOL * max(1.0, np.max(np.abs(base_dense))):
-                fails.append(('correspondence', 'ext.denote_vs_dense', f'maxdiff {oc.maxdiff(dm, base_dense)}'))
-            else:
-                facts['ext.denote_vs_dense'] = True
-        if lo.get('denote_graph_ok') is False:
-            fails.append(('correspondence', 'ext.model.denote_graph', 'model MPO and model graph denote different sums'))
+        mbody = oc.ManyBody([graph.sites[i % L] for i in range(n_sites)])
+        from harness.c10_check import eval_canon
+        dm = eval_canon(mbody, lo['denote'], n_sites)
+        if oc.maxdiff(dm, base_dense) > TOL * max(1.0, np.max(np.abs(base_dense))):
+            fails.append(('correspondence', 'ext.denote_vs_dense', f'maxdiff {oc.maxdiff(dm, base_dense)}'))
+        else:
+            facts['ext.denote_vs_dense'] = True
+    if lo.get('denote_graph_ok') is False:
+        fails.append(('correspondence', 'ext.model.denote_graph', 'model MPO and model graph denote different sums'))
     # chains
-    ucw0 = req['ucw']
     for ops, (H2, err), mc in zip(real['chains'], real['chain_out'], lo.get('chains', [])):
         sig = chain_sig(ops)
-        legal = valid_chain(ops, L, ucw0, infinite)
         if err is not None or 'error' in mc:
             if not (err is not None and 'error' in mc and err_match(mc['error'], err['error']) and mc['step'] == err['step']):
                 fails.append(('correspondence', f'ext.chain.error.{sig}', f'ops {ops} impl {str(err)[:200]} model {str(mc)[:200]}'))
-                continue
-            facts['ext.chain.raises.' + err['error']] = True
-            if legal == 'grouped-segment' and err['error'] == 'ZeroDivisionError':
-                fails.append(('property', 'dense.grouped_segment.extract_segment_after_group_sites',
-                              f'ops {ops}: {err}'))
-            elif legal is True:
-                fails.append(('property', f'ext.chain.raises.{err["error"]}.{ops[err["step"]][0]}', f'ops {ops}: {err}'))
+            else:
+                facts['ext.chain.raises.' + err['error']] = True
             continue
         if not cmp_mpo('chain.' + sig, H2, mc['mpo'], fails):
             continue
         facts['ext.chain.' + sig] = True
         for o in ops:
             facts['ext.op.' + o[0]] = True
-        # oracle 2: same operator on the corresponding window
-        try:
-            exp, got = chain_expectation(H, H2, ops, L, window, real['dims'])
-        except Exception:  # noqa: BLE001
-            fails.append(('correspondence', 'ext.harness.oracle-exception', traceback.format_exc()[-800:]))
-            continue
-        if exp is None:
-            continue
-        if exp.shape != got.shape or oc.maxdiff(exp, got) > TOL * max(1.0, np.max(np.abs(exp), initial=0.0)):
-            fails.append(('property', f'ext.oracle.chain.{sig}', f'ops {ops} maxdiff {oc.maxdiff(exp, got)}'))
-        else:
-            facts['ext.oracle.chain'] = True
         # formal sums of the model: the chain must not change the denoted sum (same window, no segment shift)
         f_enl = int(np.prod([o[1] for o in ops if o[0] == 'enlarge'] or [1]))
         if mc.get('denote') is not None and lo.get('denote') is not None and not any(o[0] == 'segment' for o in ops) \
@@ -719,8 +736,9 @@ def chain_expectation(H, H2, ops, L, window, dims):
 # entry points
 
 
-def work_chunk(cases):
+def work_chunk(args):
     from vlib import core
+    cases, use_model = args
     warnings.simplefilter('ignore')
     out = []
     reqs, reals, idx = [], [], []
@@ -746,7 +764,7 @@ def work_chunk(cases):
         reals.append(real)
         idx.append(n)
     louts = [None] * len(reqs)
-    if reqs:
+    if reqs and use_model:
         try:
             louts = core.run_driver('C10', reqs)
         except core.DriverError as e:
@@ -754,7 +772,7 @@ def work_chunk(cases):
     for n, req, real, lo in zip(idx, reqs, reals, louts):
         rec = out[n]
         try:
-            rec['fails'], rec['facts'] = check_case(rec['case'], req, real, lo)
+            rec['fails'], rec['facts'] = check_case(rec['case'], req, real, lo, use_model)
         except Exception:  # noqa: BLE001
             rec['fails'] = [('correspondence', 'ext.harness.exception', traceback.format_exc()[-1500:])]
         rec['hist'] = ['ext_sub=' + rec['case']['sub'] + ('.malformed' if rec['case'].get('malformed') or rec['case'].get('bad_chain') else ''), 'ext_bc=' + ('infinite' if real['infinite'] else 'finite')]
@@ -765,18 +783,18 @@ def work_chunk(cases):
     return out
 
 
-def run_cases(ctx, cases, res, nproc=8):
+def run_cases(ctx, cases, res, nproc=8, use_model=True):
     import multiprocessing as mp
     if not cases:
         return res
     nproc = max(1, min(nproc, len(cases) // 4 or 1))
     chunks = [cases[i::nproc] for i in range(nproc)]
     if nproc == 1:
-        outs = [work_chunk(chunks[0])]
+        outs = [work_chunk((chunks[0], use_model))]
     else:
         from concurrent.futures import ProcessPoolExecutor
         with ProcessPoolExecutor(nproc, mp_context=mp.get_context('fork')) as pool:
-            outs = list(pool.map(work_chunk, chunks, timeout=max(600, ctx.budget_s)))
+            outs = list(pool.map(work_chunk, [(c, use_model) for c in chunks], timeout=max(600, ctx.budget_s)))
     for chunk in outs:
         for rec in chunk:
             case = rec['case']
@@ -784,7 +802,8 @@ def run_cases(ctx, cases, res, nproc=8):
                 res.count('skipped=ext.' + rec['skipped'])
                 continue
             res.note_case(case, True)
-            res.traces_validated += 1
+            if use_model:
+                res.traces_validated += 1
             for h in rec.get('hist', []):
                 res.count(h)
             for k, v in rec['facts'].items():
@@ -795,11 +814,11 @@ def run_cases(ctx, cases, res, nproc=8):
     return res
 
 
-def run(ctx, res):
-    """the extension part of `harness/C10.py::run`"""
+def run(ctx, res, use_model=True, tag='ext'):
+    """the extension part of `harness/C10.py::run` (and, with use_model=False, of `search`)"""
     from vlib import core
     core.use_repo()
-    rng = ctx.sub_rng('ext')
+    rng = ctx.sub_rng(tag)
     n_total = 120 if ctx.quick else 3000
     batch = 120 if ctx.quick else 480
     done = 0
@@ -807,7 +826,7 @@ def run(ctx, res):
     share = 60 if ctx.quick else 400
     while done < n_total and ctx.elapsed() - t0 < share:
         n = min(batch, n_total - done)
-        run_cases(ctx, gen_cases(rng, n, ctx.quick), res)
+        run_cases(ctx, gen_cases(rng, n, ctx.quick), res, use_model=use_model)
         done += n
     res.extra['ext_cases'] = done
     return res
